@@ -268,7 +268,7 @@ pub fn cmd_text_fields(a: &HashMap<String, String>) -> i32 {
     let mut n = 0usize;
     // "switching": a code page switch at every character; "dbcs-caret": double-byte characters whose trail byte is '^' (an
     // ordinary lead byte and one of the IBM extension rows) followed by code page letters
-    let flavours: [(&str, &str, usize); 7] = [
+    let flavours: [(&str, &str, usize); 8] = [
         ("ascii", "a", 1),
         ("latin1", "\u{e9}", 1),
         ("cyrillic", "\u{448}", 1),
@@ -276,6 +276,8 @@ pub fn cmd_text_fields(a: &HashMap<String, String>) -> i32 {
         ("mixed", "a\u{448}\u{e9}", 1),
         ("switching", "\u{11b}\u{448}", 1),
         ("dbcs-caret", "\u{ff0f}L\u{9348}K", 1),
+        // caret sequences LFS keeps in the text, between characters of different code pages (^^8 is not "back to Latin-1")
+        ("carets", "\u{448}^^8\u{e9}^8\u{448}^^", 1),
     ];
     for f in FIELDS {
         // where does the field start ? first byte that changes between an empty and a non-empty text
